@@ -1,6 +1,7 @@
 // Generic per-quantity-type battery: K2 replay of Store behaviours, layout facts (C17), precision casts
 // (C16), comparison/hash grids (C14).  Instantiated by generated code for every quantity type x numeric type.
 #pragma once
+#include <algorithm>
 #include <array>
 #include <cmath>
 #include <cstdint>
@@ -314,6 +315,22 @@ template <class Ad> void compare_grid(const char* name, uint64_t seed, int npair
     for (auto& q : items) { if (!s.count(q)) set_ok = 0; if (!u.count(q)) uset_ok = 0; }
   }
   printf("{\"e\":\"CmpSummary\",\"type\":\"%s\",\"num\":\"%s\",\"ncomp\":%d,\"pairs\":%ld,\"ref_mismatch\":%ld,\"emitted\":%ld,\"set_ok\":%d,\"uset_ok\":%d}\n", name, NumName<T>::c, N, cnt, bad, emitted, set_ok, uset_ok);
+}
+
+// comparison of normalised types (directions): objects built from small-integer vectors (ties in leading components are frequent);
+// the event carries the order ranks of the *stored* components, so TLC judges the six operators against the lexicographic order
+template <class Ad> void compare_normalised(const char* name, uint64_t seed, int npairs) {
+  using Q = typename Ad::Q; using T = typename Ad::T; constexpr int N = Ad::N; std::mt19937_64 g(seed); long cnt = 0, bad = 0, emitted = 0;
+  for (int t = 0; t < npairs; t++) { T ca[9], cb[9]; for (int i = 0; i < N; i++) { ca[i] = (T)((int)(g() % 5) - 2); cb[i] = (g() % 3) ? ca[i] : (T)((int)(g() % 5) - 2); } if (t % 4 == 0) for (int i = 0; i < N; i++) cb[i] = ca[i] * 2;   // same direction
+    Q a = Ad::make(ca), b = Ad::make(cb); T va[9], vb[9]; getc(a, va); getc(b, vb);
+    std::vector<T> all; for (int i = 0; i < N; i++) { all.push_back(va[i] == 0 ? (T)0 : va[i]); all.push_back(vb[i] == 0 ? (T)0 : vb[i]); } std::sort(all.begin(), all.end()); all.erase(std::unique(all.begin(), all.end()), all.end());
+    auto rk = [&](T x) { return (int)(std::lower_bound(all.begin(), all.end(), x == 0 ? (T)0 : x) - all.begin()); };
+    int lt = a < b, le = a <= b, gt = a > b, ge = a >= b, eq = a == b, ne = a != b; int heq = std::hash<Q>()(a) == std::hash<Q>()(b);
+    int c = 0; for (int i = 0; i < N && !c; i++) c = rk(va[i]) < rk(vb[i]) ? -1 : rk(va[i]) > rk(vb[i]) ? 1 : 0;
+    bool ok = lt == (c < 0) && le == (c <= 0) && gt == (c > 0) && ge == (c >= 0) && eq == (c == 0) && ne == (c != 0) && (c != 0 || heq); cnt++; if (!ok) bad++;
+    if ((!ok && bad <= 50) || t % std::max(1, npairs / 40) == 0) { printf("{\"e\":\"Cmp\",\"type\":\"%s\",\"num\":\"%s\",\"a\":[", name, NumName<T>::c); for (int i = 0; i < N; i++) printf("%s%d", i ? "," : "", rk(va[i]));
+      printf("],\"b\":["); for (int i = 0; i < N; i++) printf("%s%d", i ? "," : "", rk(vb[i])); printf("],\"lt\":%d,\"le\":%d,\"gt\":%d,\"ge\":%d,\"eq\":%d,\"ne\":%d,\"heq\":%d}\n", lt, le, gt, ge, eq, ne, heq); emitted++; } }
+  printf("{\"e\":\"CmpSummary\",\"type\":\"%s\",\"num\":\"%s\",\"ncomp\":%d,\"pairs\":%ld,\"ref_mismatch\":%ld,\"emitted\":%ld,\"set_ok\":1,\"uset_ok\":1}\n", name, NumName<T>::c, N, cnt, bad, emitted);
 }
 
 // ---- behaviours file ----
